@@ -21,3 +21,134 @@ package keeper
 
 //@ contract (*Keeper).HasDenom
 //@   ensures result == has(kv(ctx, k.storeService), str(types.DenomKey) + str(denomHash))
+
+// ---- bank ledger effects of the ICS-20 keeper (C31, C32, C49). ledger(ctx) is the ghost bank ledger of the
+// context's branch; totalEscrowOf is the tracked total-in-escrow as stored under "totalEscrowForDenom/<denom>".
+
+//@ spec func escrowKey(denom string) string = "totalEscrowForDenom/" + denom
+//@ spec func totalEscrowOf(s KV, denom string) int = ite(has(s, escrowKey(denom)) && len(get(s, escrowKey(denom))) > 0, unmarshalAs(get(s, escrowKey(denom)), sdk.IntProto).Int, 0)
+//@ spec func transferModuleAddr() string = moduleAddr("transfer")
+
+// the ledger effect of sending `token` from `sender` over (port, channel), and of refunding it to `sender`
+//@ spec func tokenAmount(token types.Token) int = nth(sdkmath.NewIntFromString(token.Amount), 0)
+//@ spec func sendLedger(L Ledger, port string, channel string, token types.Token, sender string) Ledger = ite(tokenAmount(token) == 0, L, ite(token.Denom.HasPrefix(port, channel), lburn(lmove(L, sender, transferModuleAddr(), token.Denom.IBCDenom(), tokenAmount(token)), transferModuleAddr(), token.Denom.IBCDenom(), tokenAmount(token)), lmove(L, sender, str(types.GetEscrowAddress(port, channel)), token.Denom.IBCDenom(), tokenAmount(token))))
+//@ spec func refundLedger(L Ledger, port string, channel string, token types.Token, sender string) Ledger = ite(tokenAmount(token) == 0, L, ite(token.Denom.HasPrefix(port, channel), lmove(lmint(L, transferModuleAddr(), token.Denom.IBCDenom(), tokenAmount(token)), transferModuleAddr(), sender, token.Denom.IBCDenom(), tokenAmount(token)), lmove(L, str(types.GetEscrowAddress(port, channel)), sender, token.Denom.IBCDenom(), tokenAmount(token))))
+
+//@ contract (*Keeper).GetTotalEscrowForDenom
+//@   ensures result.Denom == denom && result.Amount == totalEscrowOf(kv(ctx, k.storeService), denom)
+
+//@ contract (*Keeper).SetTotalEscrowForDenom
+//@   modifies world(ctx)
+//@   ensures stored: totalEscrowOf(kv(ctx, k.storeService), coin.Denom) == coin.Amount
+//@   ensures non_negative: coin.Amount >= 0
+//@   ensures one_key: onlyKeyChanged(old(world(ctx)), world(ctx), escrowKey(coin.Denom))
+
+//@ contract (*Keeper).EscrowCoin
+//@   let L0 = ledger(ctx)
+//@   let T0 = totalEscrowOf(kv(ctx, k.storeService), coin.Denom)
+//@   modifies world(ctx)
+//@   ensures failed_unchanged: err != nil ==> world(ctx) == old(world(ctx))
+//@   ensures moved: err == nil ==> ledger(ctx) == ite(coin.Amount == 0, L0, lmove(L0, str(sender), str(escrowAddress), coin.Denom, coin.Amount))
+//@   ensures tracked: err == nil ==> totalEscrowOf(kv(ctx, k.storeService), coin.Denom) == T0 + coin.Amount
+//@   ensures one_key: err == nil ==> onlyKeyChanged(withLedger(old(world(ctx)), ledger(ctx)), world(ctx), escrowKey(coin.Denom))
+//@   ensures funded: err == nil && coin.Amount > 0 ==> bal(L0, str(sender), coin.Denom) >= coin.Amount
+
+//@ contract (*Keeper).UnescrowCoin
+//@   let L0 = ledger(ctx)
+//@   let T0 = totalEscrowOf(kv(ctx, k.storeService), coin.Denom)
+//@   modifies world(ctx)
+//@   ensures failed_unchanged: err != nil ==> world(ctx) == old(world(ctx))
+//@   ensures moved: err == nil ==> ledger(ctx) == ite(coin.Amount == 0, L0, lmove(L0, str(escrowAddress), str(receiver), coin.Denom, coin.Amount))
+//@   ensures tracked: err == nil ==> totalEscrowOf(kv(ctx, k.storeService), coin.Denom) == T0 - coin.Amount && T0 >= coin.Amount
+//@   ensures one_key: err == nil ==> onlyKeyChanged(withLedger(old(world(ctx)), ledger(ctx)), world(ctx), escrowKey(coin.Denom))
+//@   ensures funded: err == nil && coin.Amount > 0 ==> bal(L0, str(escrowAddress), coin.Denom) >= coin.Amount
+
+//@ contract (*Keeper).SendTransfer
+//@   let L0 = ledger(ctx)
+//@   let d = token.Denom.IBCDenom()
+//@   let amount = nth(sdkmath.NewIntFromString(token.Amount), 0)
+//@   let returning = token.Denom.HasPrefix(sourcePort, sourceChannel)
+//@   let escrow = str(types.GetEscrowAddress(sourcePort, sourceChannel))
+//@   let T0 = totalEscrowOf(kv(ctx, k.storeService), d)
+//@   modifies world(ctx)
+//@   ensures failed_unchanged: err != nil ==> world(ctx) == old(world(ctx))
+//@   ensures amount_parsed: err == nil ==> nth(sdkmath.NewIntFromString(token.Amount), 1)
+//@   ensures returning_voucher_burned: err == nil && returning ==> world(ctx) == withLedger(old(world(ctx)), ite(amount == 0, L0, lburn(lmove(L0, str(sender), transferModuleAddr(), d, amount), transferModuleAddr(), d, amount)))
+//@   ensures forward_escrowed: err == nil && !returning ==> ledger(ctx) == ite(amount == 0, L0, lmove(L0, str(sender), escrow, d, amount))
+//@   ensures forward_tracked: err == nil && !returning ==> totalEscrowOf(kv(ctx, k.storeService), d) == T0 + amount && onlyKeyChanged(withLedger(old(world(ctx)), ledger(ctx)), world(ctx), escrowKey(d))
+//@   ensures ledger_effect: err == nil ==> ledger(ctx) == sendLedger(L0, sourcePort, sourceChannel, token, str(sender))
+//@   ensures sender_funded: err == nil && amount > 0 ==> bal(L0, str(sender), d) >= amount
+//@   ensures only_sender_debited: forall a string, x string :: err == nil && a != str(sender) ==> bal(ledger(ctx), a, x) >= bal(L0, a, x)
+
+//@ contract (*Keeper).refundPacketTokens
+//@   let L0 = ledger(ctx)
+//@   let token = data.Token
+//@   let d = token.Denom.IBCDenom()
+//@   let amount = nth(sdkmath.NewIntFromString(token.Amount), 0)
+//@   let returning = token.Denom.HasPrefix(sourcePort, sourceChannel)
+//@   let escrow = str(types.GetEscrowAddress(sourcePort, sourceChannel))
+//@   let sender = bech32dec(data.Sender)
+//@   let T0 = totalEscrowOf(kv(ctx, k.storeService), d)
+//@   modifies world(ctx)
+//@   ensures failed_unchanged: err != nil ==> world(ctx) == old(world(ctx))
+//@   ensures burned_voucher_reminted: err == nil && returning ==> world(ctx) == withLedger(old(world(ctx)), ite(amount == 0, L0, lmove(lmint(L0, transferModuleAddr(), d, amount), transferModuleAddr(), sender, d, amount)))
+//@   ensures escrow_released: err == nil && !returning ==> ledger(ctx) == ite(amount == 0, L0, lmove(L0, escrow, sender, d, amount))
+//@   ensures release_tracked: err == nil && !returning ==> totalEscrowOf(kv(ctx, k.storeService), d) == T0 - amount && onlyKeyChanged(withLedger(old(world(ctx)), ledger(ctx)), world(ctx), escrowKey(d))
+//@   ensures ledger_effect: err == nil ==> ledger(ctx) == refundLedger(L0, sourcePort, sourceChannel, data.Token, sender)
+//@   ensures only_original_sender_credited: forall a string, x string :: err == nil && a != sender ==> bal(ledger(ctx), a, x) <= bal(L0, a, x)
+
+//@ contract (*Keeper).OnTimeoutPacket
+//@   inline
+
+//@ contract (*Keeper).OnAcknowledgementPacket
+//@   let L0 = ledger(ctx)
+//@   modifies world(ctx)
+//@   ensures failed_unchanged: err != nil ==> world(ctx) == old(world(ctx))
+//@   ensures error_ack_refunds: err == nil && isType(ack.Response, *channeltypes.Acknowledgement_Error) ==> ledger(ctx) == refundLedger(L0, sourcePort, sourceChannel, data.Token, bech32dec(data.Sender))
+//@   ensures only_original_sender_credited: forall a string, x string :: err == nil && a != bech32dec(data.Sender) ==> bal(ledger(ctx), a, x) <= bal(L0, a, x)
+//@   ensures success_changes_nothing: isType(ack.Response, *channeltypes.Acknowledgement_Result) ==> err == nil && world(ctx) == old(world(ctx))
+//@   ensures unknown_ack_changes_nothing: !isType(ack.Response, *channeltypes.Acknowledgement_Result) && !isType(ack.Response, *channeltypes.Acknowledgement_Error) ==> err != nil && world(ctx) == old(world(ctx))
+
+//@ contract (*Keeper).OnRecvPacket
+//@   let L0 = ledger(ctx)
+//@   let token = data.Token
+//@   let amount = nth(sdkmath.NewIntFromString(token.Amount), 0)
+//@   let returning = token.Denom.HasPrefix(sourcePort, sourceChannel)
+//@   let receiver = bech32dec(data.Receiver)
+//@   let unwound = types.Denom{Base: token.Denom.Base, Trace: token.Denom.Trace[1:]}
+//@   let escrow = str(types.GetEscrowAddress(destPort, destChannel))
+//@   let minted = types.Denom{Base: token.Denom.Base, Trace: appendAll(slice1(types.Hop{PortId: destPort, ChannelId: destChannel}), token.Denom.Trace)}
+//@   modifies world(ctx)
+//@   ensures voucher_minted_to_receiver: err == nil && !returning ==> ledger(ctx) == lmove(lmint(L0, transferModuleAddr(), minted.IBCDenom(), amount), transferModuleAddr(), receiver, minted.IBCDenom(), amount)
+//@   ensures voucher_recorded: err == nil && !returning ==> has(kv(ctx, k.storeService), str(types.DenomKey) + sha256(minted.Path()))
+//@   ensures amount_positive: err == nil ==> amount > 0
+//@   ensures returning_token_unescrowed: err == nil && returning ==> ledger(ctx) == lmove(L0, escrow, receiver, unwound.IBCDenom(), amount)
+//@   ensures returning_release_tracked: err == nil && returning ==> totalEscrowOf(kv(ctx, k.storeService), unwound.IBCDenom()) == totalEscrowOf(old(kv(ctx, k.storeService)), unwound.IBCDenom()) - amount
+//@   ensures only_receiver_credited: forall a string, x string :: err == nil && a != receiver ==> bal(ledger(ctx), a, x) <= bal(L0, a, x)
+//@   ensures voucher_supply_grows_by_amount: forall x string :: err == nil && !returning ==> supply(ledger(ctx), x) - supply(L0, x) == ite(bal(ledger(ctx), receiver, x) != bal(L0, receiver, x), amount, 0) && bal(ledger(ctx), receiver, x) - bal(L0, receiver, x) == supply(ledger(ctx), x) - supply(L0, x)
+
+//@ contract (*Keeper).transferV1Packet
+//@   let L0 = ledger(ctx)
+//@   modifies world(ctx)
+//@   ensures debited_exactly: err == nil ==> ledger(ctx) == sendLedger(L0, types.PortID, sourceChannel, token, str(sender))
+//@   ensures only_sender_debited: forall a string, x string :: err == nil && a != str(sender) ==> bal(ledger(ctx), a, x) >= bal(L0, a, x)
+
+// MsgTransfer on an IBC v1 channel: the only account debited is the message's sender (the account whose signature
+// the SDK requires: MsgTransfer's signer field is Sender). The v2 path hands a MsgSendPacket whose signer is the
+// same sender to the message router (a dynamic call, outside this contract); its debit is decided by
+// (IBCModule).OnSendPacket of transfer/v2, which requires payload sender == signer.
+//@ contract (*Keeper).Transfer
+//@   let L0 = ledger(goCtx)
+//@   modifies world(goCtx), calls transferV2Packet
+//@   ensures v1_only_sender_debited: forall a string, x string :: err == nil && calls("transferV2Packet") == old(calls("transferV2Packet")) && a != bech32dec(msg.Sender) ==> bal(ledger(goCtx), a, x) >= bal(L0, a, x)
+//@   ensures v1_sender_decodes: err == nil ==> bech32ok(msg.Sender)
+
+// abstractions used by Transfer (their own meaning is not needed for the debit argument): both leave the world of
+// the context unchanged (proved: frame), the v2 hand-off may change it arbitrarily and is counted
+//@ contract (*Keeper).TokenFromCoin
+//@   ensures true
+
+//@ contract (*Keeper).transferV2Packet
+//@   trusted the v2 hand-off (MsgSendPacket through the message router, ABI/JSON/protobuf packing) is not verified here: it is only assumed to change nothing but the world of the context, and it is counted
+//@   modifies world(ctx), calls transferV2Packet
+//@   ensures calls("transferV2Packet") == old(calls("transferV2Packet")) + 1
